@@ -368,23 +368,23 @@ Definition check_names_gen (nm : bytes -> bytes -> bytes -> bool) (c : option (l
 Definition check_names := check_names_gen name_match.
 
 (* checkPlugConnectionConstraints1 *)
-Definition check_plug_conn1_gen (nm : bytes -> bytes -> bytes -> bool) (cd : env -> option bool -> bool) (c : conn) (a : alt) : bool :=
+Definition check_plug_conn1_gen (nm : bytes -> bytes -> bytes -> bool) (cd : env -> option bool -> bool) (ci : (bytes -> list bytes -> (bytes -> bytes) -> bool)) (c : conn) (a : alt) : bool :=
   let p := k_plug c in let s := k_slot c in let ctx := Some (conn_ctx c) in
   check_names_gen nm (a_plug_names a) (f_iface p) (f_name p)
   && check_names_gen nm (a_slot_names a) (f_iface s) (f_name s)
   && attrs_check ctx (a_plug_attrs a) (side_attrs p)
   && attrs_check ctx (a_slot_attrs a) (side_attrs s)
   && check_snap_type (f_type s) (a_slot_snap_types a)
-  && check_id (od_snap_id (slot_decl (k_decls c))) (a_slot_snap_ids a) no_special
-  && check_id (od_pub_id (slot_decl (k_decls c))) (a_slot_pub_ids a)
+  && ci (od_snap_id (slot_decl (k_decls c))) (a_slot_snap_ids a) no_special
+  && ci (od_pub_id (slot_decl (k_decls c))) (a_slot_pub_ids a)
               (one_special (bs "$PLUG_PUBLISHER_ID"%string) (od_pub_id (plug_decl (k_decls c))))
   && check_on_classic (k_env c) (a_on_classic a)
   && cd (k_env c) (a_on_core_desktop a)
   && check_device_scope (k_env c) (a_device a).
-Definition check_plug_conn1 := check_plug_conn1_gen name_match check_on_core_desktop.
+Definition check_plug_conn1 := check_plug_conn1_gen name_match check_on_core_desktop check_id.
 
 (* checkSlotConnectionConstraints1 *)
-Definition check_slot_conn1_gen (nm : bytes -> bytes -> bytes -> bool) (cd : env -> option bool -> bool) (c : conn) (a : alt) : bool :=
+Definition check_slot_conn1_gen (nm : bytes -> bytes -> bytes -> bool) (cd : env -> option bool -> bool) (ci : (bytes -> list bytes -> (bytes -> bytes) -> bool)) (c : conn) (a : alt) : bool :=
   let p := k_plug c in let s := k_slot c in let ctx := Some (conn_ctx c) in
   check_names_gen nm (a_plug_names a) (f_iface p) (f_name p)
   && check_names_gen nm (a_slot_names a) (f_iface s) (f_name s)
@@ -392,13 +392,13 @@ Definition check_slot_conn1_gen (nm : bytes -> bytes -> bytes -> bool) (cd : env
   && attrs_check ctx (a_slot_attrs a) (side_attrs s)
   && check_snap_type (f_type s) (a_slot_snap_types a)
   && check_snap_type (f_type p) (a_plug_snap_types a)
-  && check_id (od_snap_id (plug_decl (k_decls c))) (a_plug_snap_ids a) no_special
-  && check_id (od_pub_id (plug_decl (k_decls c))) (a_plug_pub_ids a)
+  && ci (od_snap_id (plug_decl (k_decls c))) (a_plug_snap_ids a) no_special
+  && ci (od_pub_id (plug_decl (k_decls c))) (a_plug_pub_ids a)
               (one_special (bs "$SLOT_PUBLISHER_ID"%string) (od_pub_id (slot_decl (k_decls c))))
   && check_on_classic (k_env c) (a_on_classic a)
   && cd (k_env c) (a_on_core_desktop a)
   && check_device_scope (k_env c) (a_device a).
-Definition check_slot_conn1 := check_slot_conn1_gen name_match check_on_core_desktop.
+Definition check_slot_conn1 := check_slot_conn1_gen name_match check_on_core_desktop check_id.
 
 (* check*AltConstraints: OR over the alternatives; with NO alternative the Go loop returns (nil, nil), i.e. no error *)
 Definition alts_ok (f : alt -> bool) (l : list alt) : bool :=
@@ -457,24 +457,24 @@ Record inst := mkInst { i_env : env; i_type : bytes; i_slots : list side; i_plug
                         i_decl : option decl; i_base : decl }.
 
 (* checkSlotInstallationConstraints1 / checkPlugInstallationConstraints1 (attributes are checked without context) *)
-Definition check_slot_inst1_gen (nm : bytes -> bytes -> bytes -> bool) (cd : env -> option bool -> bool) (i : inst) (s : side) (a : alt) : bool :=
+Definition check_slot_inst1_gen (nm : bytes -> bytes -> bytes -> bool) (cd : env -> option bool -> bool) (ci : (bytes -> list bytes -> (bytes -> bytes) -> bool)) (i : inst) (s : side) (a : alt) : bool :=
   check_names_gen nm (a_slot_names a) (f_iface s) (f_name s)
   && attrs_check None (a_slot_attrs a) (f_static s, [])
   && check_snap_type (i_type i) (a_slot_snap_types a)
-  && check_id (od_snap_id (i_decl i)) (a_slot_snap_ids a) no_special
+  && ci (od_snap_id (i_decl i)) (a_slot_snap_ids a) no_special
   && check_on_classic (i_env i) (a_on_classic a)
   && cd (i_env i) (a_on_core_desktop a)
   && check_device_scope (i_env i) (a_device a).
-Definition check_slot_inst1 := check_slot_inst1_gen name_match check_on_core_desktop.
-Definition check_plug_inst1_gen (nm : bytes -> bytes -> bytes -> bool) (cd : env -> option bool -> bool) (i : inst) (p : side) (a : alt) : bool :=
+Definition check_slot_inst1 := check_slot_inst1_gen name_match check_on_core_desktop check_id.
+Definition check_plug_inst1_gen (nm : bytes -> bytes -> bytes -> bool) (cd : env -> option bool -> bool) (ci : (bytes -> list bytes -> (bytes -> bytes) -> bool)) (i : inst) (p : side) (a : alt) : bool :=
   check_names_gen nm (a_plug_names a) (f_iface p) (f_name p)
   && attrs_check None (a_plug_attrs a) (f_static p, [])
   && check_snap_type (i_type i) (a_plug_snap_types a)
-  && check_id (od_snap_id (i_decl i)) (a_plug_snap_ids a) no_special
+  && ci (od_snap_id (i_decl i)) (a_plug_snap_ids a) no_special
   && check_on_classic (i_env i) (a_on_classic a)
   && cd (i_env i) (a_on_core_desktop a)
   && check_device_scope (i_env i) (a_device a).
-Definition check_plug_inst1 := check_plug_inst1_gen name_match check_on_core_desktop.
+Definition check_plug_inst1 := check_plug_inst1_gen name_match check_on_core_desktop check_id.
 
 (* InstallCandidate.checkSlotRule / checkPlugRule: true = installation allowed *)
 Definition eval_inst (f : alt -> bool) (deny allow : list alt) : bool :=
@@ -511,29 +511,29 @@ Definition inst_valid (i : inst) : bool :=
 (* ------------------------------------------------------------------ the property, stated directly (reference evaluator) *)
 (* a connection is allowed iff the interfaces agree and either no level has a rule for the interface, or in the rule
    of the first level that has one no deny alternative matches and some allow alternative matches *)
-Definition spec_connect_allowed_gen (nm : bytes -> bytes -> bytes -> bool) (cd : env -> option bool -> bool) (auto : bool) (c : conn) : bool :=
+Definition spec_connect_allowed_gen (nm : bytes -> bytes -> bytes -> bool) (cd : env -> option bool -> bool) (ci : (bytes -> list bytes -> (bytes -> bytes) -> bool)) (auto : bool) (c : conn) : bool :=
   let iface := f_iface (k_plug c) in
   beq (f_iface (k_slot c)) iface &&
   match first_rule (k_decls c) iface with
   | None => true
   | Some (plugside, r) =>
-      let m := if plugside then check_plug_conn1_gen nm cd c else check_slot_conn1_gen nm cd c in
+      let m := if plugside then check_plug_conn1_gen nm cd ci c else check_slot_conn1_gen nm cd ci c in
       negb (existsb m (rule_deny auto r)) && existsb m (rule_allow auto r)
   end.
 
-Definition spec_install_allowed_gen (nm : bytes -> bytes -> bytes -> bool) (cd : env -> option bool -> bool) (i : inst) : bool :=
+Definition spec_install_allowed_gen (nm : bytes -> bytes -> bytes -> bool) (cd : env -> option bool -> bool) (ci : (bytes -> list bytes -> (bytes -> bytes) -> bool)) (i : inst) : bool :=
   forallb (fun s => match inst_slot_rule i (f_iface s) with
                     | None => true
-                    | Some r => negb (existsb (check_slot_inst1_gen nm cd i s) (r_deny_inst r))
-                                && existsb (check_slot_inst1_gen nm cd i s) (r_allow_inst r)
+                    | Some r => negb (existsb (check_slot_inst1_gen nm cd ci i s) (r_deny_inst r))
+                                && existsb (check_slot_inst1_gen nm cd ci i s) (r_allow_inst r)
                     end) (i_slots i)
   && forallb (fun p => match inst_plug_rule i (f_iface p) with
                        | None => true
-                       | Some r => negb (existsb (check_plug_inst1_gen nm cd i p) (r_deny_inst r))
-                                   && existsb (check_plug_inst1_gen nm cd i p) (r_allow_inst r)
+                       | Some r => negb (existsb (check_plug_inst1_gen nm cd ci i p) (r_deny_inst r))
+                                   && existsb (check_plug_inst1_gen nm cd ci i p) (r_allow_inst r)
                        end) (i_plugs i).
-Definition spec_connect_allowed := spec_connect_allowed_gen name_match check_on_core_desktop.
-Definition spec_install_allowed := spec_install_allowed_gen name_match check_on_core_desktop.
+Definition spec_connect_allowed := spec_connect_allowed_gen name_match check_on_core_desktop check_id.
+Definition spec_install_allowed := spec_install_allowed_gen name_match check_on_core_desktop check_id.
 (* the reference evaluator of the monitor uses the independently written whole-name matcher and its own statement of
    the on-core-desktop atom: the constraint holds exactly when its value is the system's core-desktop flag, on EVERY
    kind of system (classic: flag false; core: false; core desktop: true) - being classic changes nothing *)
@@ -545,8 +545,26 @@ Definition core_desktop_ref (e : env) (c : option bool) : bool :=
   | Some true, false => false
   | Some false, true => false
   end.
-Definition ref_connect_allowed := spec_connect_allowed_gen name_match_ref core_desktop_ref.
-Definition ref_install_allowed := spec_install_allowed_gen name_match_ref core_desktop_ref.
+(* ... and its own statement of an id constraint: the entries of the list are ALTERNATIVES, examined one by one to the
+   end of the list; an entry starting with $ stands for the value it resolves to and simply does not match when it
+   cannot be resolved (empty); an unset id never matches; an empty list does not constrain *)
+Fixpoint id_in (id : bytes) (ids : list bytes) (special : bytes -> bytes) : bool :=
+  match ids with
+  | [] => false
+  | c :: r =>
+      (match c with
+       | 36 :: _ => match special c with [] => false | v => beq v id end
+       | _ => beq c id
+       end) || id_in id r special
+  end.
+Definition check_id_ref (id : bytes) (ids : list bytes) (special : bytes -> bytes) : bool :=
+  match ids, id with
+  | [], _ => true
+  | _, [] => false
+  | _, _ => id_in id ids special
+  end.
+Definition ref_connect_allowed := spec_connect_allowed_gen name_match_ref core_desktop_ref check_id_ref.
+Definition ref_install_allowed := spec_install_allowed_gen name_match_ref core_desktop_ref check_id_ref.
 
 (* ------------------------------------------------------------------ correspondence / monitor interface *)
 Definition verdict_eqb (a b : verdict) : bool :=
